@@ -23,7 +23,9 @@ RULE = ("abstract programs over {ordinary label, numeric local label, assignment
         "of depth <= 3 incl. the same file included twice, .repeat bodies, .end, case variants of every name, duplicate "
         "definitions and exports. Compared: emitted words, the final symbol table (keys as strings, in order) and the set of "
         "error identifiers. non-trivial = distinct program with >= 1 use site and >= 2 definitions")
-LEVEL_TEXT = ("Coq theorems: the rendered keys '.local{k}.name' / '.internal{k}.name' are injective and lower-casing them is "
+LEVEL_TEXT = ("Coq theorems: scope_refines -- for every well-nested, well-kinded trace, hence every abstract program of any size, "
+              "the prefix-counter model's outcome (word of every use site, or the set of error identifiers) equals the outcome "
+              "the declarative Spec designates (simulation invariant over positions <-> counters, Proofs/ScopeRefP.v); the rendered keys '.local{k}.name' / '.internal{k}.name' are injective and lower-casing them is "
               "lower-casing the name; on the mechanism model over any well-nested trace: fresh prefixes never repeat, a use site "
               "resolved early keeps its binding, own definition wins over any export, exports are order-free, names differing in "
               "case are the same symbol, private names are not visible across instances, a second definition/export is an error. "
